@@ -34,6 +34,15 @@ captured by closures, list-comprehension qualifiers, for-in over slices, catch-c
 module-level lets.  One placeholder per binder; every spelling (all binders distinct, an inner binder
 spelled like an outer one where lexical scoping keeps every use with its binder, injectively renamed,
 closure reads through a let copy) must behave alike on the real compiler + VM (heaps 20000/400/150).
+The same family carries two more evaluator-free oracles for every iterating construct (list comprehensions
+with 1 and 2 qualifiers, filters, dependent inner ranges that are one-element / descending for some outer
+values; for-in over ascending, descending and one-element ranges with literal and computed bounds, arrays,
+slices), stated as equivalent texts (`alt<k>` spellings) of one template:
+  distinct iterations capture distinct cells: closures made per iteration and called AFTER the loop /
+    comprehension print the same numbers as the values collected eagerly in the iteration, as the explicit
+    for-in loop, and as the explicit for-in loop that stores one closure per iteration;
+  the iterable is unchanged by iteration: a range / array held in a variable, iterated by a comprehension or a
+    for-in loop and read / iterated again afterwards, behaves like a fresh copy at every use.
   spelling changes the outcome -> ctx.violation(scope-meta:<template>:<merged binders>), reduced to the
   functions of the first differing print;  crash -> ctx.violation(scope-meta:crash:<template>:...)
 """
@@ -431,6 +440,229 @@ func main() -> int
     0
 }
 """]},
+    # ---- "distinct iterations capture distinct cells", stated metamorphically: for one iterable, srcs[0] makes a
+    # closure per iteration and calls them AFTER the loop / comprehension; alt1 collects the same values eagerly in
+    # the iteration itself; alt2 is the explicit for-in loop (eager); alt3 the explicit for-in loop that stores a
+    # closure per iteration and calls them afterwards.  All four print the same numbers.
+    {"name": "iter-cells-listcomp-range", "construct": "closures made per iteration of a list comprehension / for-in over ranges (ascending, descending, one element; literal and computed bounds)",
+     "merges": [("X", "LO"), ("X1", "X"), ("X2", "X"), ("X3", "X")],
+     "alt_desc": ["the values are collected eagerly by the comprehension instead of through closures called afterwards",
+                  "the explicit for-in loop over the same range, values printed in the iteration",
+                  "the explicit for-in loop over the same range storing one closure per iteration, called after the loop"],
+     "srcs": ["""
+func showf(fs[D] : () -> int) -> int { var i = 0; for (i = 0; i < D; i = i + 1) { print(fs[i]()) }; print(D) }
+func showi(t[D] : int) -> int { var i = 0; for (i = 0; i < D; i = i + 1) { print(t[i]) }; print(D) }
+func gen({LO} : int, {HI} : int, {K} : int) -> int { showf([ let func () -> int { {X} * 10 + {K} } | {X} in [ {LO} .. {HI} ] ] : () -> int) }
+func up() -> int { showf([ let func () -> int { {X1} * 10 } | {X1} in [ 1 .. 3 ] ] : () -> int) }
+func down() -> int { showf([ let func () -> int { {X2} * 10 } | {X2} in [ 3 .. 1 ] ] : () -> int) }
+func one() -> int { showf([ let func () -> int { {X3} * 10 } | {X3} in [ {#1} .. {#1} ] ] : () -> int) }
+func main() -> int
+{
+    print(up()); print(down()); print(one());
+    print(gen(1, 3, {#2})); print(gen(3, 1, {#2})); print(gen({#3}, {#3}, 1)); print(gen(0 - 1, 1, 2)); print(gen(2, 0 - 2, 3)); print(gen({#4}, {#4} + 2, 0)); print(gen({#4} + 1, {#4}, 0));
+    0
+}
+""", """
+func showf(fs[D] : () -> int) -> int { var i = 0; for (i = 0; i < D; i = i + 1) { print(fs[i]()) }; print(D) }
+func showi(t[D] : int) -> int { var i = 0; for (i = 0; i < D; i = i + 1) { print(t[i]) }; print(D) }
+func gen({LO} : int, {HI} : int, {K} : int) -> int { showi([ {X} * 10 + {K} | {X} in [ {LO} .. {HI} ] ] : int) }
+func up() -> int { showi([ {X1} * 10 | {X1} in [ 1 .. 3 ] ] : int) }
+func down() -> int { showi([ {X2} * 10 | {X2} in [ 3 .. 1 ] ] : int) }
+func one() -> int { showi([ {X3} * 10 | {X3} in [ {#1} .. {#1} ] ] : int) }
+func main() -> int
+{
+    print(up()); print(down()); print(one());
+    print(gen(1, 3, {#2})); print(gen(3, 1, {#2})); print(gen({#3}, {#3}, 1)); print(gen(0 - 1, 1, 2)); print(gen(2, 0 - 2, 3)); print(gen({#4}, {#4} + 2, 0)); print(gen({#4} + 1, {#4}, 0));
+    0
+}
+""", """
+func gen({LO} : int, {HI} : int, {K} : int) -> int { var n = 0; for ({X} in [ {LO} .. {HI} ]) { print({X} * 10 + {K}); n = n + 1 }; print(n) }
+func up() -> int { var n = 0; for ({X1} in [ 1 .. 3 ]) { print({X1} * 10); n = n + 1 }; print(n) }
+func down() -> int { var n = 0; for ({X2} in [ 3 .. 1 ]) { print({X2} * 10); n = n + 1 }; print(n) }
+func one() -> int { var n = 0; for ({X3} in [ {#1} .. {#1} ]) { print({X3} * 10); n = n + 1 }; print(n) }
+func main() -> int
+{
+    print(up()); print(down()); print(one());
+    print(gen(1, 3, {#2})); print(gen(3, 1, {#2})); print(gen({#3}, {#3}, 1)); print(gen(0 - 1, 1, 2)); print(gen(2, 0 - 2, 3)); print(gen({#4}, {#4} + 2, 0)); print(gen({#4} + 1, {#4}, 0));
+    0
+}
+""", """
+func z() -> int { 0 }
+func later(fs[D] : () -> int, n : int) -> int { var i = 0; for (i = 0; i < n; i = i + 1) { print(fs[i]()) }; print(n) }
+func gen({LO} : int, {HI} : int, {K} : int) -> int
+{
+    var fs = [ z, z, z, z, z, z, z, z ] : () -> int; var n = 0;
+    for ({X} in [ {LO} .. {HI} ]) { fs[n] = let func () -> int { {X} * 10 + {K} }; n = n + 1 };
+    later(fs, n)
+}
+func up() -> int { var fs = [ z, z, z, z ] : () -> int; var n = 0; for ({X1} in [ 1 .. 3 ]) { fs[n] = let func () -> int { {X1} * 10 }; n = n + 1 }; later(fs, n) }
+func down() -> int { var fs = [ z, z, z, z ] : () -> int; var n = 0; for ({X2} in [ 3 .. 1 ]) { fs[n] = let func () -> int { {X2} * 10 }; n = n + 1 }; later(fs, n) }
+func one() -> int { var fs = [ z, z, z, z ] : () -> int; var n = 0; for ({X3} in [ {#1} .. {#1} ]) { fs[n] = let func () -> int { {X3} * 10 }; n = n + 1 }; later(fs, n) }
+func main() -> int
+{
+    print(up()); print(down()); print(one());
+    print(gen(1, 3, {#2})); print(gen(3, 1, {#2})); print(gen({#3}, {#3}, 1)); print(gen(0 - 1, 1, 2)); print(gen(2, 0 - 2, 3)); print(gen({#4}, {#4} + 2, 0)); print(gen({#4} + 1, {#4}, 0));
+    0
+}
+"""]},
+    {"name": "iter-cells-listcomp-nested", "construct": "closures made per iteration of a list comprehension with two qualifiers, filters and dependent inner ranges (empty-ish / one element / descending for some outer values)",
+     "merges": [("Y", "N"), ("X2", "X"), ("Y2", "Y"), ("X3", "X"), ("Y3", "Y")],
+     "alt_desc": ["the values are collected eagerly by the comprehension instead of through closures called afterwards",
+                  "the explicit nested for-in loops with the filters as conditions, values printed in the iteration"],
+     "srcs": ["""
+func showf(fs[D] : () -> int) -> int { var i = 0; for (i = 0; i < D; i = i + 1) { print(fs[i]()) }; print(D) }
+func showi(t[D] : int) -> int { var i = 0; for (i = 0; i < D; i = i + 1) { print(t[i]) }; print(D) }
+func tri({N} : int) -> int { showf([ let func () -> int { {X} * 10 + {Y} } | {X} in [ 0 .. {N} ]; {X} != 1; {Y} in [ 0 .. {X} ] ] : () -> int) }
+func dn({N2} : int) -> int { showf([ let func () -> int { {X2} * 100 + {Y2} } | {X2} in [ {N2} .. 0 ]; {Y2} in [ {X2} .. 1 ]; ({X2} + {Y2}) % 3 != 0 ] : () -> int) }
+func pr() -> int { showf([ let func () -> int { {X3} * 10 + {Y3} } | {X3} in [ 1 .. 2 ]; {Y3} in [ {#1} .. {#1} ] ] : () -> int) }
+func main() -> int
+{
+    print(tri(2)); print(tri(0)); print(tri(3)); print(dn(2)); print(dn(0)); print(dn(3)); print(pr());
+    0
+}
+""", """
+func showf(fs[D] : () -> int) -> int { var i = 0; for (i = 0; i < D; i = i + 1) { print(fs[i]()) }; print(D) }
+func showi(t[D] : int) -> int { var i = 0; for (i = 0; i < D; i = i + 1) { print(t[i]) }; print(D) }
+func tri({N} : int) -> int { showi([ {X} * 10 + {Y} | {X} in [ 0 .. {N} ]; {X} != 1; {Y} in [ 0 .. {X} ] ] : int) }
+func dn({N2} : int) -> int { showi([ {X2} * 100 + {Y2} | {X2} in [ {N2} .. 0 ]; {Y2} in [ {X2} .. 1 ]; ({X2} + {Y2}) % 3 != 0 ] : int) }
+func pr() -> int { showi([ {X3} * 10 + {Y3} | {X3} in [ 1 .. 2 ]; {Y3} in [ {#1} .. {#1} ] ] : int) }
+func main() -> int
+{
+    print(tri(2)); print(tri(0)); print(tri(3)); print(dn(2)); print(dn(0)); print(dn(3)); print(pr());
+    0
+}
+""", """
+func tri({N} : int) -> int
+{
+    var n = 0;
+    for ({X} in [ 0 .. {N} ]) { if ({X} != 1) { for ({Y} in [ 0 .. {X} ]) { print({X} * 10 + {Y}); n = n + 1 }; 0 } else { 0 } };
+    print(n)
+}
+func dn({N2} : int) -> int
+{
+    var n = 0;
+    for ({X2} in [ {N2} .. 0 ]) { for ({Y2} in [ {X2} .. 1 ]) { if (({X2} + {Y2}) % 3 != 0) { print({X2} * 100 + {Y2}); n = n + 1 } else { 0 } } };
+    print(n)
+}
+func pr() -> int { var n = 0; for ({X3} in [ 1 .. 2 ]) { for ({Y3} in [ {#1} .. {#1} ]) { print({X3} * 10 + {Y3}); n = n + 1 } }; print(n) }
+func main() -> int
+{
+    print(tri(2)); print(tri(0)); print(tri(3)); print(dn(2)); print(dn(0)); print(dn(3)); print(pr());
+    0
+}
+"""]},
+    {"name": "iter-cells-array-slice", "construct": "closures made per iteration over arrays and slices (list comprehension and for-in)",
+     "merges": [("E2", "L2"), ("E2", "E"), ("E3", "E"), ("E4", "E")],
+     "alt_desc": ["the values are collected eagerly in the iteration instead of through closures called afterwards"],
+     "srcs": ["""
+func showf(fs[D] : () -> int) -> int { var i = 0; for (i = 0; i < D; i = i + 1) { print(fs[i]()) }; print(D) }
+func showi(t[D] : int) -> int { var i = 0; for (i = 0; i < D; i = i + 1) { print(t[i]) }; print(D) }
+func z() -> int { 0 }
+func later(fs[D] : () -> int, n : int) -> int { var i = 0; for (i = 0; i < n; i = i + 1) { print(fs[i]()) }; print(n) }
+func ca(a[D] : int, {K} : int) -> int { showf([ let func () -> int { {E} * 2 + {K} } | {E} in a ] : () -> int) }
+func cs(a[D] : int, {L2} : int, hi : int) -> int { showf([ let func () -> int { {E2} * 3 } | {E2} in a[{L2} .. hi] ] : () -> int) }
+func fa(a[D] : int) -> int { var fs = [ z, z, z, z, z, z, z, z ] : () -> int; var n = 0; for ({E3} in a) { fs[n] = let func () -> int { {E3} + 1 }; n = n + 1 }; later(fs, n) }
+func fsl(a[D] : int, lo : int, hi : int) -> int { var fs = [ z, z, z, z, z, z, z, z ] : () -> int; var n = 0; for ({E4} in a[lo .. hi]) { fs[n] = let func () -> int { {E4} + 2 }; n = n + 1 }; later(fs, n) }
+func main() -> int
+{
+    let a = [ {#1}, {#2}, {#3}, {#4}, {#5}, {#6} ] : int;
+    let b = [ {#7} ] : int;
+    print(ca(a, {#8})); print(ca(b, 1)); print(cs(a, 1, 3)); print(cs(a, 2, 2)); print(cs(a, 0, 5)); print(fa(a)); print(fa(b)); print(fsl(a, 1, 4)); print(fsl(a, 5, 5));
+    0
+}
+""", """
+func showi(t[D] : int) -> int { var i = 0; for (i = 0; i < D; i = i + 1) { print(t[i]) }; print(D) }
+func ca(a[D] : int, {K} : int) -> int { showi([ {E} * 2 + {K} | {E} in a ] : int) }
+func cs(a[D] : int, {L2} : int, hi : int) -> int { showi([ {E2} * 3 | {E2} in a[{L2} .. hi] ] : int) }
+func fa(a[D] : int) -> int { var n = 0; for ({E3} in a) { print({E3} + 1); n = n + 1 }; print(n) }
+func fsl(a[D] : int, lo : int, hi : int) -> int { var n = 0; for ({E4} in a[lo .. hi]) { print({E4} + 2); n = n + 1 }; print(n) }
+func main() -> int
+{
+    let a = [ {#1}, {#2}, {#3}, {#4}, {#5}, {#6} ] : int;
+    let b = [ {#7} ] : int;
+    print(ca(a, {#8})); print(ca(b, 1)); print(cs(a, 1, 3)); print(cs(a, 2, 2)); print(cs(a, 0, 5)); print(fa(a)); print(fa(b)); print(fsl(a, 1, 4)); print(fsl(a, 5, 5));
+    0
+}
+"""]},
+    # ---- "the iterable is unchanged after iteration": srcs[0] iterates a range / array held in a variable and reads
+    # it (bounds, elements, a second iteration) afterwards; alt1 iterates a fresh copy each time
+    {"name": "iterable-unchanged", "construct": "a range / array held in a variable is the same after a list comprehension or a for-in loop has iterated it",
+     "merges": [("X", "LO"), ("Y", "X"), ("V", "X")],
+     "alt_desc": ["every iteration and every later read uses a fresh copy of the range / array instead of the variable that was iterated before"],
+     "srcs": ["""
+func showi(t[D] : int) -> int { var i = 0; for (i = 0; i < D; i = i + 1) { print(t[i]) }; print(D) }
+func showr([ f .. t ] : range) -> int { print(f); print(t) }
+func rg({LO} : int, {HI} : int) -> int
+{
+    let r = [ {LO} .. {HI} ];
+    showr(r);
+    showi([ {X} * 2 | {X} in r ] : int);
+    showr(r);
+    showi([ {Y} + 1 | {Y} in r ] : int);
+    var s = 0;
+    for ({V} in r) { s = s * 10 + {V} };
+    showr(r);
+    showi([ {Y} + s | {Y} in r ] : int)
+}
+func ar() -> int
+{
+    var a = [ {#1}, {#2}, {#3} ] : int;
+    showi([ e * 2 | e in a ] : int);
+    showi(a);
+    var s = 0;
+    for (e in a) { s = s + e };
+    showi(a);
+    showi([ e + s | e in a[0 .. 1] ] : int);
+    showi(a)
+}
+func two(n : int) -> int
+{
+    let r2 = [ 0 .. n ];
+    showi([ x * 10 + y | x in [ 1 .. 3 ]; y in r2 ] : int);
+    showr(r2)
+}
+func main() -> int
+{
+    print(rg(1, 4)); print(rg(4, 1)); print(rg({#4}, {#4})); print(ar()); print(two(1)); print(two(0));
+    0
+}
+""", """
+func showi(t[D] : int) -> int { var i = 0; for (i = 0; i < D; i = i + 1) { print(t[i]) }; print(D) }
+func showr([ f .. t ] : range) -> int { print(f); print(t) }
+func rg({LO} : int, {HI} : int) -> int
+{
+    let r = [ {LO} .. {HI} ];
+    showr(r);
+    showi([ {X} * 2 | {X} in [ {LO} .. {HI} ] ] : int);
+    showr([ {LO} .. {HI} ]);
+    showi([ {Y} + 1 | {Y} in [ {LO} .. {HI} ] ] : int);
+    var s = 0;
+    for ({V} in [ {LO} .. {HI} ]) { s = s * 10 + {V} };
+    showr([ {LO} .. {HI} ]);
+    showi([ {Y} + s | {Y} in [ {LO} .. {HI} ] ] : int)
+}
+func ar() -> int
+{
+    var a = [ {#1}, {#2}, {#3} ] : int;
+    showi([ e * 2 | e in [ {#1}, {#2}, {#3} ] : int ] : int);
+    showi([ {#1}, {#2}, {#3} ] : int);
+    var s = 0;
+    for (e in [ {#1}, {#2}, {#3} ] : int) { s = s + e };
+    showi([ {#1}, {#2}, {#3} ] : int);
+    showi([ e + s | e in [ {#1}, {#2} ] : int ] : int);
+    showi(a)
+}
+func two(n : int) -> int
+{
+    showi([ x * 10 + y | x in [ 1 .. 3 ]; y in [ 0 .. n ] ] : int);
+    showr([ 0 .. n ])
+}
+func main() -> int
+{
+    print(rg(1, 4)); print(rg(4, 1)); print(rg({#4}, {#4})); print(ar()); print(two(1)); print(two(0));
+    0
+}
+"""]},
 ]
 
 NAME_POOL = ["w", "h", "n", "k", "x", "y", "len", "idx", "acc", "val", "tmp", "item", "count", "width", "height", "rows", "cols",
@@ -471,8 +703,9 @@ def scope_instances(seed):
                     names[a] = names[b]
             return names
 
-        def add(spelling, pairs, src):
-            out.append({"template": t["name"], "construct": t["construct"], "spelling": spelling, "merged": list(pairs), "source": src})
+        def add(spelling, pairs, src, alt=None):
+            out.append({"template": t["name"], "construct": t["construct"], "spelling": spelling, "merged": list(pairs), "source": src,
+                        "alt_desc": alt})
 
         add("distinct", [], inst(t["srcs"][0], base))
         for a, b in t["merges"]:
@@ -487,8 +720,10 @@ def scope_instances(seed):
         add("all", allp, inst(t["srcs"][0], merged(allp)))
         add("renamed", [], inst(t["srcs"][0], renamed))
         for k, alt in enumerate(t["srcs"][1:], 1):
-            add("alt%d" % k, [], inst(alt, base))
-            add("alt%d+all" % k, allp, inst(alt, merged(allp)))
+            desc = (t.get("alt_desc") or [])[k - 1:k]
+            desc = desc[0] if desc else "closures read the immutable binders through a let copy made in the defining scope"
+            add("alt%d" % k, [], inst(alt, base), desc)
+            add("alt%d+all" % k, allp, inst(alt, merged(allp)), desc)
     return out
 
 
@@ -525,7 +760,7 @@ def _scope_reduce(source, call):
             cur = []
         cur.append(line)
     chunks.append("\n".join(cur))
-    keep = []
+    keep, funcs = [], []
     locals_main = ""
     for ch in chunks:
         m = re.match(r"\s*func (\w+)\(", ch)
@@ -537,8 +772,19 @@ def _scope_reduce(source, call):
             for st in re.findall(r"\n    (let \w+ = .*?;)(?=\n)", mm.group(1) if mm else "", re.S):
                 if re.search(r"\b%s\b" % re.escape(st.split()[1]), call):
                     locals_main += "    %s\n" % st
-        elif re.search(r"\b%s\(" % re.escape(m.group(1)), call):
-            keep.append(ch)
+        else:
+            funcs.append((m.group(1), ch))
+    # the functions the call mentions, and the ones those mention
+    needed, text = [], call
+    changed = True
+    while changed:
+        changed = False
+        for name, ch in funcs:
+            if name not in needed and re.search(r"\b%s\b" % re.escape(name), text):
+                needed.append(name)
+                text += ch
+                changed = True
+    keep += [ch for name, ch in funcs if name in needed]
     return "\n".join(k.strip("\n") for k in keep if k.strip()) + "\nfunc main() -> int\n{\n%s    print(%s);\n    0\n}\n" % (locals_main, call)
 
 
@@ -600,44 +846,47 @@ def run_scope_family(ctx, nevrun):
                     per_template[c["template"]] = n + 1
                     found.append((c, mem, o, b, "diff"))
                 break
-    # reduce every finding to the function(s) of the first differing print and run that again
-    red = []
+    # reduce every finding: for each print(...) of main the program cut down to the functions that call names; the
+    # first call on which the offending spelling still differs from the distinct one (or still crashes) is kept
+    red, progs = [], []
     for k, (c, mem, o, b, kind) in enumerate(found):
         bc = distinct[c["template"]][1]
-        calls = _scope_calls(c["source"])
-        idx = len(o["printed"]) if kind == "crash" else _first_diff(o, b)
-        call = calls[idx] if idx < len(calls) else None
-        r = {"call": call}
-        if call is not None:
-            bcalls = _scope_calls(bc["source"])
-            r["src"] = _scope_reduce(c["source"], call)
-            r["base_src"] = _scope_reduce(bc["source"], bcalls[idx]) if idx < len(bcalls) else None
-        red.append(r)
-    progs = []
-    for k, r in enumerate(red):
-        if r.get("src"):
-            progs.append(("r%d.o" % k, found[k][1], r["src"]))
-            if r.get("base_src"):
-                progs.append(("r%d.b" % k, SCOPE_HEAPS[0], r["base_src"]))
+        calls, bcalls = _scope_calls(c["source"]), _scope_calls(bc["source"])
+        cand = []
+        for ci, call in enumerate(calls):
+            if ci >= len(bcalls):
+                break
+            src, bsrc = _scope_reduce(c["source"], call), _scope_reduce(bc["source"], bcalls[ci])
+            cand.append((call, src, bsrc))
+            progs.append(("r%d_%d.o" % (k, ci), mem, src))
+            progs.append(("r%d_%d.b" % (k, ci), SCOPE_HEAPS[0], bsrc))
+        red.append(cand)
     real2 = run_batch("reduced.txt", progs) if progs else {}
     shutil.rmtree(tmp, ignore_errors=True)
+    chosen = []
     for k, (c, mem, o, b, kind) in enumerate(found):
-        r = red[k]
+        pick = {"call": None}
+        for ci, (call, src, bsrc) in enumerate(red[k]):
+            ro, rb = real2.get("r%d_%d.o" % (k, ci)), real2.get("r%d_%d.b" % (k, ci))
+            if ro is None or rb is None or rb["kind"] != "RESULT":
+                continue
+            if (kind == "crash" and ro["kind"] == "CRASH") or (kind == "diff" and ro["kind"] not in ("LIMIT", "CRASH") and not evaldiff.same(ro, rb)):
+                pick = {"call": call, "src": src, "base_src": bsrc, "ro": ro, "rb": rb}
+                break
+        chosen.append(pick)
+    for k, (c, mem, o, b, kind) in enumerate(found):
+        r = chosen[k]
         tag = "%s:%s" % (c["template"], c["spelling"].replace(" ", ":"))
         detail = {"template": c["template"], "construct": c["construct"], "spelling": c["spelling"], "merged_binders": c["merged"],
                   "heap_cells": mem, "source": c["source"], "observed": evaldiff.short(o), "log": o["log"][-600:],
                   "first_differing_call": r.get("call")}
         mini = ""
-        ro, rb = real2.get("r%d.o" % k), real2.get("r%d.b" % k)
-        if ro is not None and rb is not None and rb["kind"] == "RESULT" and (
-                (kind == "crash" and ro["kind"] == "CRASH") or (kind == "diff" and ro["kind"] != "LIMIT" and not evaldiff.same(ro, rb))):
+        if r.get("call") is not None:
+            ro, rb = r["ro"], r["rb"]
             detail["minimised"] = {"source": r["src"], "observed": evaldiff.short(ro), "distinct_source": r["base_src"],
                                    "distinct_observed": evaldiff.short(rb)}
             mini = "; reduced to `%s`: %s instead of %s" % (r["call"], ro["value"] if ro["kind"] == "CRASH" else evaldiff.short(ro)["printed"] or evaldiff.short(ro)["kind"],
                                                             evaldiff.short(rb)["printed"])
-        elif kind == "crash" and ro is not None and ro["kind"] == "CRASH":
-            detail["minimised"] = {"source": r["src"], "observed": evaldiff.short(ro)}
-            mini = "; reduced to `%s`" % r["call"]
         if kind == "crash":
             ctx.violation("scope-meta:crash:%s" % tag, "scoping template %s (%s), spelling `%s`, heap %d: the real compiler/VM crashes (%s)%s" % (
                 c["template"], c["construct"], c["spelling"], mem, o["value"], mini), detail)
@@ -647,7 +896,7 @@ def run_scope_family(ctx, nevrun):
             ctx.violation("scope-meta:%s" % tag,
                           "scoping template %s (%s): spelling `%s` (%s) behaves differently from the spelling with all binders distinct%s%s" % (
                               c["template"], c["construct"], c["spelling"],
-                              ("closures read the immutable binders through a let copy made in the defining scope" + (
+                              ((c.get("alt_desc") or "equivalent text") + (
                                   "; binders %s share a name" % c["merged"] if c["merged"] else "")) if c["spelling"].startswith("alt") else
                               ("binders %s share a name; lexical scoping gives every use the same binder as before" % c["merged"]) if c["merged"] else
                               "all binders renamed injectively",
